@@ -556,6 +556,7 @@ func writeEvidence(rd *runData, prop, tier string, seed int, sel, discharged, kn
 			"trusted_base":               trustedBase,
 			"samples":                    samples,
 			"functions_under_contract":   fns,
+			"helpers_decided_at_call_sites": rd.eng.inlineOnly,
 			"per_obligation":             recs,
 			"backends":                   backends,
 			"solver_time_s":              float64(solverMs) / 1000,
